@@ -1,0 +1,57 @@
+//go:build verif
+
+// Contracts checked by /verif/govc (comment-only; compiled only with -tags verif).
+// Soundness mode (see frontend/contracts_verif.go). L is the comparator's absDiffUppBitLen. The
+// comparisons are those of the documentation read in the field: "x is non-negative" means the canonical
+// representative of x is below 2^L, and a <= b means b-a is non-negative. nonneg/sless are the raw facts
+// the emitted constraints force; the @exact clauses add that, when P > 2^(L+1) (the constructor's check
+// unless allowNonDeterministicBehaviour), no second output is satisfiable.
+package cmp
+
+//@ spec func nonneg(x F, L int) bool = fits(ival(x), L)
+//@ spec func sless(a F, b F, L int) bool = ival(fsub(b, a)) >= 1 && ival(fsub(b, a)) <= pow2(L)
+//@ spec func wfBC(bc BoundedComparator) bool = bc.api != nil && bc.absDiffUppBitLen >= 1
+
+//@ contract NewBoundedComparator
+//@   props C14
+//@   requires api != nil && absDiffUpp != nil
+//@   ensures @bitlen result != nil && result.api == api && result.absDiffUppBitLen >= 1 && fits(*absDiffUpp, result.absDiffUppBitLen) && !fits(*absDiffUpp, result.absDiffUppBitLen - 1)
+//@   ensures @room pow2(result.absDiffUppBitLen) <= fieldP() - *absDiffUpp - 1
+//@   ensures @deterministic !allowNonDeterministicBehaviour ==> pow2(result.absDiffUppBitLen + 1) < fieldP()
+
+//@ contract (BoundedComparator).assertIsNonNegative
+//@   props C14
+//@   requires wfBC(bc)
+//@   ensures @nonneg nonneg(den(x), bc.absDiffUppBitLen)
+
+//@ contract (BoundedComparator).AssertIsLessEq
+//@   props C14
+//@   requires wfBC(bc)
+//@   ensures @leq nonneg(fsub(den(b), den(a)), bc.absDiffUppBitLen)
+
+//@ contract (BoundedComparator).AssertIsLess
+//@   props C14
+//@   requires wfBC(bc)
+//@   ensures @less nonneg(fsub(fsub(den(b), f1), den(a)), bc.absDiffUppBitLen)
+
+//@ contract (BoundedComparator).IsLess
+//@   props C14
+//@   requires wfBC(bc)
+//@   ensures @bool isBool(den(result)) && isWire(result)
+//@   ensures @one den(result) == f1 ==> nonneg(fsub(fsub(den(b), den(a)), f1), bc.absDiffUppBitLen)
+//@   ensures @zero den(result) == f0 ==> nonneg(fsub(den(a), den(b)), bc.absDiffUppBitLen)
+//@   ensures @exact pow2(bc.absDiffUppBitLen + 1) < fieldP() ==> (den(result) == f1) == sless(den(a), den(b), bc.absDiffUppBitLen)
+
+//@ contract (BoundedComparator).IsLessEq
+//@   props C14
+//@   requires wfBC(bc)
+//@   ensures @bool isBool(den(result))
+//@   ensures @one den(result) == f1 ==> nonneg(fsub(den(b), den(a)), bc.absDiffUppBitLen)
+//@   ensures @zero den(result) == f0 ==> nonneg(fsub(fsub(den(a), den(b)), f1), bc.absDiffUppBitLen)
+
+//@ contract (BoundedComparator).Min
+//@   props C14
+//@   requires wfBC(bc)
+//@   ensures @one-of den(result) == den(a) || den(result) == den(b)
+//@   ensures @below den(result) == den(a) ==> nonneg(fsub(den(b), den(a)), bc.absDiffUppBitLen)
+//@   ensures @below-b den(result) == den(b) ==> nonneg(fsub(den(a), den(b)), bc.absDiffUppBitLen)
